@@ -2,6 +2,11 @@
 // validates the log against the VarHeap actions and operators.  Trees reach depth 5, arrays and objects grow past the
 // 3/6/12 capacity steps, containers are shared between roots and inside other containers, every scalar kind is assigned
 // over every other (type-changing assignment while shared), own descendants are assigned to their ancestors.
+// Growth: typed containers (Var(Array<T>), var = Dic<T>, ...), the other C++ number types, "facts" events with the wide
+// observation (conversions to Array<T>/Dic<T>, keyed queries, const operator[], | default, isArrayOf, == with literals), and
+// enumerations driven step by step through Var::Enumerator (all(), operator bool, *, ~, ++) with other calls in between:
+// while an enumeration is open the driver leaves the Var slots on the enumerated path and the item sets of the containers
+// on it alone (element values are assigned freely, also through other Vars that share the container).
 // The driver follows the documented API: in-range arguments, extend() with an object argument, no call that would make
 // a container contain itself, and no call that triggers an open finding listed in --avoid.
 #include "c04_common.h"
@@ -17,13 +22,21 @@ static const int MAXDEPTH = 5;
 static const int MAXITEMS = 14;
 static const int MAXNODES = 60;
 
-static const char* STRS[] = { "", "abcdefg", "abcdefgh", "12", "1.5xyzuvw" };
+static const int NSTRS = 9;
+static const char* STRS[] = { "", "abcdefg", "abcdefgh", "12", "1.5xyzuvw", "1.5", "abc", " 7", "-2.5" };
 static const char* KEYS[] = { "a", "b", "c234567890123456789", "d", "e", "f", "g", "h" };
 static const SVal SCALARS[] = {
 	{ "none", 0 }, { "nul", 0 }, { "bool", 1 }, { "bool", 0 }, { "int", 1 }, { "int", 2 }, { "num", 2 }, { "num", 3 }, { "flt", 3 },
-	{ "str", 1 }, { "str", 2 }, { "str", 3 }, { "str", 4 }, { "int", 0 }, { "num", -1 }, { "str", 5 }, { "int", -7 }, { "flt", 4 }
+	{ "str", 1 }, { "str", 2 }, { "str", 3 }, { "str", 4 }, { "int", 0 }, { "num", -1 }, { "str", 5 }, { "int", -7 }, { "flt", 4 },
+	{ "str", 6 }, { "str", 7 }, { "str", 8 }, { "str", 9 }, { "num", 0 }, { "num", -5 }
 };
-static const int NSCALARS = 18;
+static const int NSCALARS = 24;
+// the element values of typed containers (VarApi.TypedVals) and the literal probes (VarApi.LitProbe, 1-based ScalarTab indexes)
+static const char* TNAMES[] = { "int", "num", "flt", "bool", "str" };
+static const int TYPEDVALS[5][3] = { { 1, -7, 0 }, { 3, -1, 4 }, { 3, 4, -5 }, { 1, 0, 1 }, { 4, 3, 1 } };
+static const int LITPROBE[] = { 3, 4, 5, 14, 17, 7, 8, 23, 24, 9, 18, 10, 11, 12, 13, 19, 22, 2, 1 };
+static const int NLITS = 19;
+static const char* CTYPES[] = { "char", "unsigned", "long", "ulong", "Long", "ULong" };
 
 static std::string pathJson(const Path& p)
 {
@@ -39,10 +52,66 @@ struct Driver
 	Rng& rng;
 	Log& log;
 	bool avoidGrow;
-	Driver(Rng& r, Log& l, bool ag) : w(NR), rng(r), log(l), avoidGrow(ag)
+	bool avoidExtNon, avoidStrKind; // further open findings the driver can be told to avoid
+	// the enumeration in progress
+	Var::Enumerator* en;
+	Path enPath;
+	std::set<const Var*> pathSlots;    // the Var slots from the root down to the enumerated Var
+	std::set<const void*> pathNodes;   // the storage of the containers on that path (the enumerated one included)
+	const void* enNode;
+	Driver(Rng& r, Log& l, bool ag, bool ae = false, bool as = false) : w(NR), rng(r), log(l), avoidGrow(ag), avoidExtNon(ae), avoidStrKind(as), en(0), enNode(0)
 	{
-		for (int i = 0; i < 5; i++) w.tb.strs.push_back(STRS[i]);
+		for (int i = 0; i < NSTRS; i++) w.tb.strs.push_back(STRS[i]);
 		for (int i = 0; i < NKEYS; i++) w.tb.keys.push_back(KEYS[i]);
+	}
+
+	~Driver() { delete en; }
+
+	// ---- enumeration ---------------------------------------------------------------------------------------
+	void enumBegin(const Path& p)
+	{
+		const Var& v = *w.cslot(p);
+		enPath = p;
+		pathSlots.clear();
+		pathNodes.clear();
+		for (size_t n = 1; n <= p.size(); n++)
+		{
+			Path pre(p.begin(), p.begin() + (long)n);
+			const Var* sv = w.cslot(pre);
+			pathSlots.insert(sv);
+			int rc, cap, len;
+			const void* ptr;
+			storageOf(*sv, rc, cap, len, ptr);
+			pathNodes.insert(ptr);
+			enNode = ptr;
+		}
+		en = new Var::Enumerator(v.all());
+		log.line("{\"op\":\"enumBegin\",\"p\":" + pathJson(p) + "}");
+	}
+	void enumNext()
+	{
+		Var& x = **en;
+		int k = w.cslot(enPath)->type() == Var::OBJ ? w.tb.keyId(~*en) : 0;
+		String s = x.toString();
+		std::string e = "{\"op\":\"enumNext\"," + kv("k", k) + "," + kv("ty", (int)x.type()) + ",\"s\":" + vj::codes(std::string(*s, (size_t)s.length())) + ",\"set\":";
+		if (rng.chance(45))
+		{
+			SVal sv = SCALARS[rng.below(NSCALARS)];
+			w.assignScalar(x, sv, rng.below(6));
+			e += svalJson(sv);
+		}
+		else e += "{\"t\":\"keep\",\"v\":0}";
+		++*en;
+		log.line(e + "}");
+	}
+	void enumEnd()
+	{
+		log.line(std::string("{\"op\":\"enumEnd\",") + kv("more", (bool)*en ? 1 : 0) + "}");
+		delete en;
+		en = 0;
+		pathSlots.clear();
+		pathNodes.clear();
+		enNode = 0;
 	}
 
 	// ---- projection of the real values ------------------------------------------------------------------
@@ -177,6 +246,90 @@ struct Driver
 		return "{" + kv("ty", (int)v.type()) + ",\"cont\":" + cont + ",\"isn\":" + isn + "," + kv("len", v.length()) + "," + kv("i", (int)v) + "," + kv("d2", d2) + "," +
 		       kv("b", (bool)v ? 1 : 0) + ",\"s\":" + vj::codes(std::string(*s, (size_t)s.length())) + "}";
 	}
+	std::string brief(const Var& r) const
+	{
+		String s = r.toString();
+		return "{" + kv("ty", (int)r.type()) + "," + kv("len", r.length()) + ",\"s\":" + vj::codes(std::string(*s, (size_t)s.length())) + "}";
+	}
+	static std::string h2(double d) { return std::to_string(std::isnan(d) ? 99999LL : (long long)(d * 2)); }
+	template <class A> static std::string listI(const A& a) { std::string s = "["; for (int i = 0; i < a.length(); i++) s += (i ? "," : "") + std::to_string((int)a[i]); return s + "]"; }
+	template <class A> static std::string listD(const A& a) { std::string s = "["; for (int i = 0; i < a.length(); i++) s += (i ? "," : "") + h2((double)a[i]); return s + "]"; }
+	static std::string listS(const Array<String>& a) { std::string s = "["; for (int i = 0; i < a.length(); i++) s += (i ? "," : "") + vj::codes(std::string(*a[i], (size_t)a[i].length())); return s + "]"; }
+	template <class T> static Array<T> vals(const Dic<T>& d) { Array<T> r; foreach2(String& k, T& x, d) { (void)k; r << x; } return r; }
+	// both ways of converting must agree; a disagreement is logged as a list no specification value can equal
+	template <class A> static std::string both(const A& a, const A& b, const std::string& text) { return a == b ? text : std::string("[\"operator Array<T>() and Array<T>::operator=(const Var&) differ\"]"); }
+	std::string facts2(const Var& v) const
+	{
+		static const int codes[] = { 0, 1, 2, 3, 4, 5, 6, 8, 9, 10 };
+		std::string g = "{";
+		{
+			// (the targets of the assignments hold something already: converting must replace it)
+			Array<int> a = v, a2; a2 << 77; a2 = v;
+			Array<double> d = v, d2; d2 << 0.25; d2 = v;
+			Array<float> f = v;
+			Array<bool> b = v, b2; b2 << true; b2 = v;
+			Array<String> s = v.operator Array<String>(), s2; s2 << "x"; s2 = v;
+			bool fsame = f.length() == d.length();
+			for (int i = 0; fsame && i < f.length(); i++) if (!(f[i] == (float)d[i]) && !(std::isnan(f[i]) && std::isnan(d[i]))) fsame = false;
+			bool dsame = d.length() == d2.length();
+			for (int i = 0; dsame && i < d.length(); i++) if (!(d[i] == d2[i]) && !(std::isnan(d[i]) && std::isnan(d2[i]))) dsame = false;
+			g += "\"ai\":" + both(a, a2, listI(a)) + ",\"ad\":" + (fsame && dsame ? listD(d) : std::string("[\"float/double conversions differ\"]")) + ",\"ab\":" + both(b, b2, listI(b)) + ",\"as\":" + both(s, s2, listS(s));
+			Dic<int> oi = v; Dic<double> od = v; Dic<bool> ob = v; Dic<String> os = v.operator Dic<String>();
+			bool keys = v.type() != Var::OBJ || (oi.keys() == v.object().keys() && od.keys() == oi.keys() && ob.keys() == oi.keys() && os.keys() == oi.keys());
+			g += ",\"oi\":" + (keys ? listI(vals(oi)) : std::string("[\"keys differ\"]")) + ",\"od\":" + listD(vals(od)) + ",\"ob\":" + listI(vals(ob)) + ",\"os\":" + listS(vals(os));
+		}
+		std::string has = "[", call = "[", rd = "[";
+		for (int k = 0; k < NKEYS; k++)
+		{
+			String key(KEYS[k]);
+			std::string ts = "[";
+			bool first = true;
+			for (size_t c = 0; c < sizeof codes / sizeof codes[0]; c++)
+				if (v.has(key, (Var::Type)codes[c])) { ts += (first ? "" : ",") + std::to_string(codes[c]); first = false; }
+			ts += "]";
+			const Var* pp = v.getp(key);
+			const Var& cr = v[key];
+			Var called = v(key);
+			std::string bc = brief(called);
+			// has(k), getp(k), const [] and operator() must tell the same story
+			if (v.has(key) != (pp != 0) || (first && v.has(key)) || (pp && pp != &cr) || brief(cr) != bc || brief(v[KEYS[k]]) != bc) ts = "[\"keyed queries disagree\"]";
+			has += (k ? "," : "") + ts;
+			call += (k ? "," : "") + bc;
+			int y = 9;
+			v.read(key, y);
+			rd += (k ? "," : "") + std::to_string(y);
+		}
+		g += ",\"has\":" + has + "],\"call\":" + call + "],\"rd\":" + rd + "]";
+		g += ",\"call2\":[" + brief(v(KEYS[0])(KEYS[0])) + "," + brief(v(KEYS[0])(KEYS[1])) + "," + brief(v(KEYS[1])(KEYS[0])) + "," + brief(v(KEYS[1])(KEYS[1])) + "]";
+		g += ",\"cidx\":[";
+		for (int i = 0; i < 3; i++)
+			g += std::string(i ? "," : "") + (v.type() == Var::ARRAY && i >= v.length() ? std::string("{\"ty\":-1,\"len\":0,\"s\":[]}") : brief(v[i]));
+		g += "],\"ord\":[" + brief(v | 35) + "," + brief(v | String(STRS[2])) + "],\"arrof\":[";
+		{
+			bool first = true;
+			for (size_t c = 0; c < sizeof codes / sizeof codes[0]; c++)
+			{
+				bool r = v.isArrayOf((Var::Type)codes[c]);
+				if (v.isArrayOf(v.length(), (Var::Type)codes[c]) != r || v.isArrayOf(v.length() + 1, (Var::Type)codes[c])) { g += (first ? "" : ","); g += "\"isArrayOf(n, t) differs\""; first = false; }
+				if (r) { g += (first ? "" : ",") + std::to_string(codes[c]); first = false; }
+			}
+		}
+		g += "],\"eql\":[";
+		for (int j = 0; j < NLITS; j++)
+		{
+			const SVal& x = SCALARS[LITPROBE[j] - 1];
+			Var lit = w.make(x);
+			bool r0 = v == lit;
+			bool same = (lit == v) == r0 && (v != lit) != r0;
+			if (x.t == "bool") same = same && (v == (x.v != 0)) == r0 && (v != (x.v != 0)) != r0;
+			else if (x.t == "int") same = same && (v == x.v) == r0 && (v != x.v) != r0;
+			else if (x.t == "num") same = same && (v == x.v / 2.0) == r0 && (v != x.v / 2.0) != r0;
+			else if (x.t == "flt") same = same && (v == (float)(x.v / 2.0)) == r0;
+			else if (x.t == "str") same = same && (v == STRS[x.v - 1]) == r0 && (v == String(STRS[x.v - 1])) == r0 && (v != STRS[x.v - 1]) != r0;
+			g += std::string(j ? "," : "") + (same ? (r0 ? "1" : "0") : "2");
+		}
+		return g + "]}";
+	}
 	void check()
 	{
 		std::string s = "{\"op\":\"check\",\"roots\":[";
@@ -188,7 +341,34 @@ struct Driver
 	bool step()
 	{
 		std::vector<Path> sl = allSlots();
+		if (en)
+		{
+			int r2 = rng.below(100);
+			bool more = (bool)*en;
+			if (r2 < 38 && more) { enumNext(); return true; }
+			if (r2 < 44 || (!more && r2 < 75)) { enumEnd(); return true; }
+		}
+		else if (rng.chance(5))
+		{
+			std::vector<Path> cs;
+			for (size_t i = 0; i < sl.size(); i++)
+			{
+				const Var& c = *w.cslot(sl[i]);
+				if ((c.type() == Var::ARRAY || c.type() == Var::OBJ) && (c.length() >= 2 || rng.chance(20))) cs.push_back(sl[i]);
+			}
+			if (cs.empty()) return false;
+			enumBegin(cs[(size_t)rng.below((int)cs.size())]);
+			return true;
+		}
 		Path p = sl[(size_t)rng.below((int)sl.size())];
+		if (en && rng.chance(45))
+		{
+			// the items of the enumerated container, through any Var that leads to it
+			std::vector<Path> its;
+			for (size_t i = 0; i < sl.size(); i++) if (sl[i].size() > 1 && holderPtr(sl[i]) == enNode) its.push_back(sl[i]);
+			if (!its.empty()) p = its[(size_t)rng.below((int)its.size())];
+		}
+		else
 		if (rng.chance(15)) p = Path(1, rng.range(1, NR)); // roots a little more often
 		else if (rng.chance(40)) { size_t best = (size_t)rng.below((int)sl.size()); for (int t = 0; t < 3; t++) { size_t c = (size_t)rng.below((int)sl.size()); if (sl[c].size() > sl[best].size()) best = c; } p = sl[best]; } // and deep slots
 		Var& d = *w.slot(p);
@@ -199,9 +379,13 @@ struct Driver
 		int live = liveNodes();
 		int r = rng.below(100);
 		std::string e;
-		int alt = rng.below(6);
+		int alt = rng.below(16);
 		// big trees are not thrown away too often
 		if (r < 30 && (ty == Var::ARRAY || ty == Var::OBJ) && countNodes(d) + len >= 3 && rng.chance(75)) r = 30 + rng.below(58);
+		// while an enumeration is open: no assignment to a Var on the enumerated path, no call that could add or remove
+		// items of a container on it
+		if (en && r < 38 && pathSlots.count(&d)) return false;
+		if (en && r >= 38 && r < 88 && ptr && pathNodes.count(ptr)) return false;
 		if (r < 14) // typed assignment
 		{
 			SVal x = SCALARS[rng.below(NSCALARS)];
@@ -219,9 +403,37 @@ struct Driver
 		else if (r < 38) // construction from containers
 		{
 			if (live >= MAXNODES) return false;
-			int shape = rng.below(4);
-			w.assignNew(d, shape, alt);
-			e = "{\"op\":\"assignNew\",\"p\":" + pathJson(p) + "," + kv("shape", shape) + post(p);
+			int which = rng.below(100);
+			if (which < 55)
+			{
+				int shape = rng.below(4);
+				w.assignNew(d, shape, alt);
+				e = "{\"op\":\"assignNew\",\"p\":" + pathJson(p) + "," + kv("shape", shape) + post(p);
+			}
+			else if (which < 85) // Var(Array<T>), Var(Dic<T>), var = Array<T>, var = Dic<T>
+			{
+				int t = rng.below(5), n = rng.below(4);
+				bool arr = rng.chance(50);
+				std::vector<int> vals(TYPEDVALS[t], TYPEDVALS[t] + 3);
+				w.assignTyped(d, arr ? "arr" : "obj", TNAMES[t], n, vals, alt);
+				e = "{\"op\":\"assignTyped\",\"p\":" + pathJson(p) + "," + ks("kind", arr ? "arr" : "obj") + "," + ks("T", TNAMES[t]) + "," + kv("n", n) + post(p);
+			}
+			else if (which < 92) // Var(Var::Type), var = Var::Type
+			{
+				static const int kc[] = { 0, 1, 5, 8, 9, 10 };
+				int c = kc[rng.below(6)];
+				if (c == 8 && avoidStrKind) c = 5;
+				w.assignKind(d, c, alt);
+				e = "{\"op\":\"assignKind\",\"p\":" + pathJson(p) + "," + kv("c", c) + post(p);
+			}
+			else // char, unsigned, long, unsigned long, Long, ULong
+			{
+				int ct = rng.below(6);
+				static const int cv[] = { 1, 65, -7 };
+				int n = cv[rng.below(ct == 1 || ct == 3 || ct == 5 ? 2 : 3)];
+				w.assignC(d, CTYPES[ct], n, alt);
+				e = "{\"op\":\"assignC\",\"p\":" + pathJson(p) + "," + ks("ct", CTYPES[ct]) + "," + kv("n", n) + post(p);
+			}
 		}
 		else if (r < 46) // operator[](int)
 		{
@@ -287,8 +499,10 @@ struct Driver
 			if (ty != Var::ARRAY) return false;
 			int i = rng.below(len + 2);
 			if (i > MAXITEMS) return false;
-			d.removeAt(i);
-			e = "{\"op\":\"removeAt\",\"p\":" + pathJson(p) + "," + kv("i", i) + post(p);
+			int n = 1;
+			if (rng.chance(30) && i + 2 <= len) n = rng.range(2, len - i); // a range inside the array
+			if (n == 1 && (alt & 1)) d.removeAt(i); else d.removeAt(i, n);
+			e = "{\"op\":\"removeAt\",\"p\":" + pathJson(p) + "," + kv("i", i) + "," + kv("n", n) + post(p);
 		}
 		else if (r < 82)
 		{
@@ -302,7 +516,8 @@ struct Driver
 			if (ty != Var::NONE && ty != Var::OBJ) return false;
 			if (ty == Var::NONE && live >= MAXNODES) return false;
 			std::vector<Path> objs;
-			for (size_t i = 0; i < sl.size(); i++) if (w.cslot(sl[i])->type() == Var::OBJ) objs.push_back(sl[i]);
+			bool nonobj = !avoidExtNon && rng.chance(20); // an argument that is not an object adds nothing
+			for (size_t i = 0; i < sl.size(); i++) if ((w.cslot(sl[i])->type() == Var::OBJ) != nonobj) objs.push_back(sl[i]);
 			if (objs.empty()) return false;
 			Path q = objs[(size_t)rng.below((int)objs.size())];
 			const Var& s = *w.cslot(q);
@@ -321,24 +536,31 @@ struct Driver
 			d.extend(s);
 			e = "{\"op\":\"extend\",\"p\":" + pathJson(p) + ",\"q\":" + pathJson(q) + post(p);
 		}
-		else if (r < 93) // clone into a root
+		else if (r < 92) // clone into a root
 		{
 			Path q = sl[(size_t)rng.below((int)sl.size())];
 			int root = rng.range(1, NR);
+			if (en && pathSlots.count(&w.roots[(size_t)root])) return false;
 			if (live + countNodes(*w.cslot(q)) > MAXNODES + 20) return false;
 			w.roots[(size_t)root] = w.cslot(q)->clone();
 			Path rp(1, root);
 			e = "{\"op\":\"clone\",\"p\":" + pathJson(rp) + ",\"q\":" + pathJson(q) + post(rp);
 		}
-		else if (r < 97) // comparison / conversions (no state change)
+		else if (r < 98) // comparison / conversions (no state change)
 		{
 			Path q = sl[(size_t)rng.below((int)sl.size())];
+			if (!ptr && rng.chance(50)) // containers more often
+			{
+				std::vector<Path> cs;
+				for (size_t i = 0; i < sl.size(); i++) if (w.cslot(sl[i])->type() == Var::ARRAY || w.cslot(sl[i])->type() == Var::OBJ) cs.push_back(sl[i]);
+				if (!cs.empty()) p = cs[(size_t)rng.below((int)cs.size())];
+			}
 			const Var& a = *w.cslot(p);
 			const Var& b = *w.cslot(q);
 			if (rng.chance(50))
 				e = "{\"op\":\"eq\",\"p\":" + pathJson(p) + ",\"q\":" + pathJson(q) + "," + kv("r", a == b ? 1 : 0) + "," + kv("nr", a != b ? 1 : 0) + "}";
 			else
-				e = "{\"op\":\"facts\",\"p\":" + pathJson(p) + ",\"f\":" + facts(a) + "}";
+				e = "{\"op\":\"facts\",\"p\":" + pathJson(p) + ",\"f\":" + facts(a) + ",\"g\":" + facts2(a) + "}";
 		}
 		else { check(); return true; }
 		log.line(e);
@@ -354,6 +576,7 @@ struct Driver
 			tries++;
 			if (liveNodes() > MAXNODES + 10)
 			{
+				if (en) { enumEnd(); done++; continue; }
 				int r = rng.range(1, NR);
 				SVal none = { "none", 0 };
 				w.assignScalar(w.roots[(size_t)r], none, 0);
@@ -364,6 +587,7 @@ struct Driver
 			}
 			if (step()) done++;
 		}
+		if (en) enumEnd();
 		check();
 	}
 };
@@ -374,13 +598,14 @@ int main(int argc, char** argv)
 	Rng rng(args.seed);
 	Log log(args.out);
 	bool ag = args.avoid.count("GrowWhileShared") > 0;
+	bool ae = args.avoid.count("ExtendNonObject") > 0, as = args.avoid.count("StringKindCtor") > 0;
 	long remaining = args.events;
 	while (remaining > 0)
 	{
 		long n = rng.range(150, 900);
 		if (n > remaining) n = remaining;
 		{
-			Driver d(rng, log, ag);
+			Driver d(rng, log, ag, ae, as);
 			d.run(n);
 		}
 		remaining -= n;
